@@ -82,6 +82,8 @@ class Sys(e2.DevSys):
             for ttl in self.cfg["offer_ttls"]:
                 acts.append(("offer", i, ttl))
             acts.append(("stopoffer", i))
+        # one SD message with two entries for the same service: the last one counts
+        acts += [("offer+stop", 0), ("stop+offer", 0, 3)]
         if not any(e[2] == "restart" for e in self.events):
             acts.append(("restart", -1))  # stop() and start() of the discovery part: the schedule begins again
         return acts
@@ -109,6 +111,15 @@ class Sys(e2.DevSys):
             f = filters(self.s, self.s2)[act[1]]
             self.events.append((self.loop.time(), self.cur[1], "watch", act[1], 0))
             self.prot.discovery.watch_service(cfg_.Service(*f), ClientRec(f"LW{act[1]}", self.log, self.loop))
+            return
+        if act[0] in ("offer+stop", "stop+offer"):
+            self.session += 1
+            svc = self.svcs[act[1]]
+            ttls = (3, 0) if act[0] == "offer+stop" else (0, act[2])
+            for ttl in ttls:
+                self.events.append((self.loop.time(), self.cur[1], "offer" if ttl else "stopoffer", act[1], ttl))
+            data = refcodec.sd_message(self.session, [("offer", svc[0], svc[1], svc[2], ttl, svc[3], (), ()) for ttl in ttls])
+            self.prot.datagram_received(data, SRC, True)
             return
         self.session += 1
         svc = self.svcs[act[1]]
@@ -225,9 +236,14 @@ def reoffer_triple(cfg, devs, p, k):
             and p[0] - devs[0][0] < 1.0 and devs[0][1] == devs[1][1] == p[1] == "pre")
 
 
+K1_ONLY = ("offer+stop", "stop+offer", "restart")
+
+
 def restrict(thorough, cfg, devs, p, k):
     if k <= 1:
         return True
+    if not thorough and (p[2][0] in K1_ONLY or any(d[2][0] in K1_ONLY for d in devs)):
+        return False  # quick tier: two-entry messages and restarts as single disturbances only
     if reoffer_triple(cfg, devs, p, k):
         return True
     if k == 2 and cfg["base"] == 1.0 and cfg["reps"] == 3 and cfg["frac"] == 0.0 and cfg["window"] != (0.0, 0.0) \
